@@ -1,6 +1,7 @@
 package app
 
 import (
+	"bytes"
 	"encoding/hex"
 	"fmt"
 	"math"
@@ -264,6 +265,10 @@ func (app *App) txChecker() txChecker {
 		if err != nil {
 			app.logger.Errorf("checkTx failed to deserialize msg: %v, error: %s ", msg, err)
 		}
+		if err == nil && !isCanonicalEncoding(tx, msg.Tx) {
+			app.Context.check.DiscardTxSession()
+			return ResponseCheckTx{Code: CodeNotOK.uint32(), Log: errNonCanonicalTx}
+		}
 		txCtx := app.Context.Action(&app.header, app.Context.check)
 		handler := txCtx.Router.Handler(tx.Type)
 
@@ -328,6 +333,10 @@ func (app *App) txDeliverer() txDeliverer {
 		err := serialize.GetSerializer(serialize.NETWORK).Deserialize(msg.Tx, tx)
 		if err != nil {
 			app.logger.Errorf("deliverTx failed to deserialize msg: %v, error: %s ", msg, err)
+		}
+		if err == nil && !isCanonicalEncoding(tx, msg.Tx) {
+			app.Context.deliver.DiscardTxSession()
+			return ResponseDeliverTx{Code: CodeNotOK.uint32(), Log: errNonCanonicalTx}
 		}
 		txCtx := app.Context.Action(&app.header, app.Context.deliver)
 
@@ -799,6 +808,18 @@ func handleBlockRewards(appCtx *context, block RequestBeginBlock, logger *log.Lo
 	}
 
 	return result
+}
+
+const errNonCanonicalTx = "transaction is not in its canonical encoding"
+
+// isCanonicalEncoding reports whether raw is exactly the serialisation this
+// node produces for the transaction. Replay protection is keyed by the hash of
+// the received bytes while signatures cover a re-serialisation of the parsed
+// content, so any other encoding of an executed transaction (whitespace, key
+// order, extra or duplicate fields, escapes) would be a new, validly signed
+// transaction to the duplicate check.
+func isCanonicalEncoding(tx *action.SignedTx, raw []byte) bool {
+	return bytes.Equal(tx.SignedBytes(), raw)
 }
 
 // lookupIndexedTx asks Tendermint's tx index for a transaction. While the node
